@@ -579,6 +579,8 @@ def exec_unit(args):
                 o["msg"] = str(e)[:200]
             rec["obs"].append(o)
         rec["groups"] = group_obs(rec["obs"])
+        # keep the record small (a thorough run holds > 10^5 of them): the observations live in the groups
+        rec["obs"] = [{"reader": o["reader"], "err": o["err"], "msg": o.get("msg", "")} for o in rec["obs"]]
         return rec
     finally:
         try:
@@ -720,14 +722,26 @@ def _crash_with_prev(unit, why):
     rid, prev, case = unit
     if prev is None:
         return crash_record(unit, why)
-    rec = robust_map(exec_unit, [(rid, None, case)], crash_record)[0]
-    rec["prev"] = prev if rec["w"]["err"] == "crashed" else None
+    rec = robust_map(_light, [(rid, None, case)], crash_record)[0]
+    if rec["w"]["err"] != "crashed":
+        rec["info"]["alone"] = True
+    return rec
+
+
+def _light(unit):
+    rec = exec_unit(unit)
+    rec["case"] = rec["prev"] = None      # the parent has them
     return rec
 
 
 def run_units(us, chunk=None):
     _session_root()         # created (and removed at exit) by the parent; the forked children work below it
-    return robust_map(exec_unit, us, _crash_with_prev, chunk=chunk)
+    recs = robust_map(_light, us, _crash_with_prev, chunk=chunk)
+    byid = {u[0]: u for u in us}
+    for r in recs:
+        r["case"] = byid[r["id"]][2]
+        r["prev"] = None if r["info"].get("alone") else byid[r["id"]][1]
+    return recs
 
 
 # =========================================== case construction ====================================================
@@ -1120,7 +1134,7 @@ def run(ctx):
     ctx.note(header_value_type_drift_cases=drift, write_modified_argument_cases=changed)
     for r in [x for x in all_recs if x["case"]["src"] == "hdrtext"][:2] + [x for x in all_recs if x["case"]["src"] == "pair"][:2] + \
             [x for x in all_recs if x["case"]["src"] == "random"][:2]:
-        ctx.sample({"case": r["case"], "abstract": r["c"], "observed_first_reader": r["obs"][0] if r["obs"] else None})
+        ctx.sample({"case": r["case"], "abstract": r["c"], "observed": r["groups"][0] if r["groups"] else None})
     # 6. binding self-test
     selftest(ctx, [r for r in all_recs if r["id"] not in rejects])
     F, B = T["fmt"], T["brt"]
@@ -1170,8 +1184,19 @@ def selftest(ctx, recs):
         raise MachineryError("binding self-test: no suitable accepted record (rows>=2, big-endian field, user header)")
     import copy
 
+    def full_obs(r):
+        """one observation per reader again (the records keep them grouped)"""
+        out = []
+        for reader in SELF_READERS + GIVEN_READERS:
+            g = next(g for g in r["groups"] if reader in g["readers"])
+            o = copy.deepcopy({k: g[k] for k in ("err", "descr", "n", "rows", "hdr")})
+            o["reader"] = reader
+            out.append(o)
+        return out
+
     def mutate(fn):
         r = copy.deepcopy(pick)
+        r["obs"] = full_obs(r)
         fn(r)
         return r
 
@@ -1213,6 +1238,7 @@ def selftest(ctx, recs):
         r["id"] = i
         batch.append(r)
     clean = copy.deepcopy(pick)
+    clean["obs"] = full_obs(clean)
     clean["id"] = len(muts) + 1
     batch.append(clean)
     saved = ctx.traces
